@@ -47,9 +47,9 @@ WALL = {"quick": 240, "thorough": 2700}
 RUN_TIMEOUT = 300
 RULE = ("scenario = design kind (stratified low-level meiosis | stratified through a mating protocol | real-PRNG map-based meiosis with 2e5 gametes | "
         "real-PRNG selfing design through a protocol), 1-12 markers on 1-3 chromosomes, crossover probabilities arbitrary (exact 0 and 0.5 included) or "
-        "interpolated from a generated genetic map with the Haldane function; distinct = (kind, protocol/function, chromosome count, probability source, "
+        "interpolated from a generated genetic map with the Haldane or Kosambi function, optionally after an earlier mapping onto another map (re-mapping history); map-assigned probabilities are judged against values computed here from the map applied last; distinct = (kind, protocol/function, chromosome count, probability source, "
         "selfing depth); non-trivial = at least one frequency comparison made")
-COMPONENTS = {"real": ["mat_meiosis / mat_dh / mat_mate, dense_meiosis / dense_dh / dense_cross", "seven mating protocols", "StandardGeneticMap + HaldaneMapFunction + interp_xoprob"],
+COMPONENTS = {"real": ["mat_meiosis / mat_dh / mat_mate, dense_meiosis / dense_dh / dense_cross", "seven mating protocols", "StandardGeneticMap + HaldaneMapFunction / KosambiMapFunction + interp_xoprob"],
               "stub": ["generator subclass: stratified scripted uniform draws in mode (a); real PCG64/MT19937 in mode (b)"]}
 ASSUMPTIONS = ["parents carry distinct provenance codes on their two copies so a gamete's phase sequence can be read off the progeny",
                "mode (b) thresholds 6.5*sqrt(p(1-p)/N) + 2/N: sensitivity roughly 1% at N = 2e5",
